@@ -30,8 +30,12 @@ def random_workload(ctx, red):
         w = rng.choice([1, 2])
         if mode == 2:
             lo = rng.choice([0, 1, 2]); hi = lo + rng.choice([1, 2, 4]); ql = hi + rng.choice([0, 1, 2])
+            if rng.random() < 0.2:
+                ql = max(1, rng.choice([lo, lo + 1, hi - 1]))        # hard limit below the maximum threshold
         else:
             lo = rng.choice([1, 2, 4]); hi = lo + rng.choice([2, 4, 8]); ql = hi + rng.choice([0, 2, 4])
+            if rng.random() < 0.2:
+                ql = max(1, rng.choice([lo, lo + 1, hi - 1]))
         pn, pd = rng.choice([(1, 2), (1, 4), (1, 1), (3, 4)])
         cfg = {"mode": mode, "qlimit": ql, "K": rng.choice([0, 1, 2, 4]), "red": 1, "minth": lo, "maxth": hi,
                "pn": pn, "pd": pd, "w": w}
